@@ -49,7 +49,7 @@ class Stable(Harness):
             from ..core import SymInt
             return {"x": SymStr([ctx.fresh_char("w%d" % i, ((10, 10), (32, 32))) for i in range(n)]),
                     "width": SymInt(ctx.fresh_int("width", 40, 100))}
-        if t in ("empty", "seqUnits", "mixed"):
+        if t in ("empty", "seqUnits", "mixed", "casekeys"):
             return {"x": SymStr([ctx.fresh_char("w%d" % i, ((10, 10), (32, 32))) for i in range(n)])}
         raise KeyError(t)
 
@@ -92,6 +92,10 @@ class Stable(Harness):
             Dq = 'lorem ip"sum dolor - sit amet'
             return ('k = ("' + A + '",' + w(0) + '"x' + w(1) + "y\", '" + Dq + "', \"lorem ipsum dolor sit amet\", \"" + A +
                     '")\nj = {\'' + Dq + "', \"" + A + '", "x y"}\nEND\n')
+        if t == "casekeys":
+            # parameter names that differ only in letter case inside a group (an object is present, so PDS3 keeps groups)
+            return ("OBJECT = o" + w(0) + "x = 1" + w(1) + "END_OBJECT\nGROUP = g\n a = 1" + w(2) + "A = 2\n b = 3\nEND_GROUP\n"
+                    "Key = 1\nKEY = 2\nEND\n")
         if t == "mixed":
             return "a = 2#101#" + w(0) + "b = 'x  y'" + w(1) + "c = -16#F#" + w(2) + "d = 1.50" + w(3) + "e = TRUE" + w(4) + "END"
         raise KeyError(t)
@@ -144,6 +148,7 @@ def obligations(tier):
         obs.append(Stable(encoder=e, template="seqUnits", n=4))
         obs.append(Stable(encoder=e, template="mixed", n=5))
         obs.append(Stable(encoder=e, template="wrapquote", n=2))
+        obs.append(Stable(encoder=e, template="casekeys", n=3))
     return obs
 
 
